@@ -28,7 +28,7 @@ Proof. vm_compute. auto. Qed.
 Theorem C10_quoted_scan : forall n t, (length t <= n)%nat -> okq t = true ->
   forall rest line val tline comment,
   lex_go (esc t ++ QUOTE :: rest) line val tline comment true false =
-  {| t_file := 0; t_line := tline; t_text := rev val ++ t |} ::
+  {| t_file := 0; t_line := tline; t_text := rev val ++ t; t_imp := 0; t_envnl := 0%Z |} ::
   lex_go rest (line + count_nl t)%Z [] 0%Z false false false.
 Proof. exact quoted_scan. Qed.
 Print Assumptions C10_quoted_scan.
@@ -102,21 +102,30 @@ Example C10_parse_structure_nonvacuous :
 Proof. vm_compute. auto. Qed.
 Local Close Scope string_scope.
 
-(* The guard is needed for environment values: a value containing a line break glues the next line
-   onto the directive (isNewLine counts the breaks of the SUBSTITUTED previous token); the directive
-   `root` disappears. Reproduced on the implementation (known finding F-C10-3). *)
-Theorem C10_env_value_with_line_break_refuted :
-  exists env inp, texts_of (parse env inp) =
-    Some [([bs "a.com"%string], [(bs "header"%string, [bs "header"%string; [108; 49; 10; 108; 50]; bs "root"%string; bs "/x"%string])])].
-Proof.
-  exists [(bs "V"%string, [108; 49; 10; 108; 50])], (bs "a.com {
+(* Environment values do not take part in the line structure (repair of F-C10-3): a token whose
+   environment references have been substituted — whatever the values contain, line breaks
+   included — ends on the line where it was written, for the parser's own test (isNewLine) and for
+   the Dispenser operations of directive setup code (NextLine / NextBlock and NextArg). This is why
+   the guard [lines_ok] of the structure theorems above is a condition on the tokens AS WRITTEN
+   and does not mention the environment. *)
+Theorem C10_env_value_keeps_line_structure : forall env t u,
+  next_on_new_line (exp_tok env t) u = next_on_new_line t u /\
+  same_line (exp_tok env t) u = same_line t u /\
+  next_on_new_line u (exp_tok env t) = next_on_new_line u t /\
+  same_line u (exp_tok env t) = same_line u t.
+Proof. exact env_value_keeps_line_structure. Qed.
+Print Assumptions C10_env_value_keeps_line_structure.
+
+(* the former witness of F-C10-3: the value of V contains a line break; `root` stays a directive *)
+Example C10_env_value_with_line_break :
+  texts_of (parse [(bs "V"%string, [108; 49; 10; 108; 50])] (bs "a.com {
 	header {$V}
 	root /x
 }
-"%string).
-  vm_compute. reflexivity.
-Qed.
-Print Assumptions C10_env_value_with_line_break_refuted.
+"%string)) =
+    Some [([bs "a.com"%string], [(bs "header"%string, [bs "header"%string; [108; 49; 10; 108; 50]]);
+                                  (bs "root"%string, [bs "root"%string; bs "/x"%string])])].
+Proof. vm_compute. reflexivity. Qed.
 
 (* ---------------------------------------------------------------------------------------- *)
 (* 3. TERMINATION, IMPORT CYCLES, ENVIRONMENT EXPANSION                                       *)
@@ -155,7 +164,7 @@ Qed.
    continuation: *)
 Theorem C10_directives_fuel_linear : forall env maxi globs files ls done nxt post f st,
   at_end st done (flat_lines ls ++ nxt :: post) ->
-  lines_ok env ls nxt = true -> (length (flat_lines ls) < f)%nat ->
+  lines_ok ls nxt = true -> (length (flat_lines ls) < f)%nat ->
   directives env maxi globs files (length ls + f) st =
   directives env maxi globs files f
     (st_with st (done ++ exp_lines env ls ++ nxt :: post) (Z.of_nat (length (done ++ exp_lines env ls)) - 1)
@@ -192,42 +201,103 @@ Proof. vm_compute. auto. Qed.
 (* ---------------------------------------------------------------------------------------- *)
 
 (* What an import does to the Dispenser, for every state: exactly the two tokens `import <pattern>`
-   are replaced by the tokens of the matched files, in glob order, the cursor is left on the token
-   before them and the counter is incremented; everything before and after is untouched, so the
-   parse continues on the spliced token list exactly as it would on that list written inline. *)
-Theorem C10_import_splice_partial : forall env maxi globs files st pre imp arg post pat toks,
+   are replaced by the tokens of the snippet or of the matched files (in glob order), each marked
+   with the number of this import statement; the cursor is left on the token before them and the
+   counter is incremented; everything before and after is untouched. *)
+Theorem C10_import_splice : forall env maxi globs files st pre imp arg post pat toks,
   at_pos st pre imp (arg :: post) -> import_ready env globs files st imp arg post pat toks ->
   (maxi <? p_imports st + 1)%N = false ->
-  do_import env maxi globs files st = POk (st_imp st (pre ++ toks ++ post) (Z.of_nat (length pre))).
+  do_import env maxi globs files st =
+  POk (st_imp st (pre ++ map (set_imp (p_imports st + 1)) toks ++ post) (Z.of_nat (length pre))).
 Proof. exact do_import_ok. Qed.
-Print Assumptions C10_import_splice_partial.
+Print Assumptions C10_import_splice.
 
-(* The full statement "a configuration split into snippets parses like the inline text" is FALSE of
-   the faithful model (and of the implementation: known findings F-C10-4/5): spliced snippet tokens
-   keep the line numbers of their definition, and an `import` at the start of a snippet body used
-   inside a sub-block after a later line is not expanded. *)
-Theorem C10_import_equiv_snippet_refuted :
-  exists split inline, texts_of (parse [] inline) <> None /\ texts_of (parse [] split) <> texts_of (parse [] inline).
+(* ... and at directive level the parse continues on the spliced list, one unit of fuel later *)
+Theorem C10_import_splice_directives : forall env maxi globs files done imp arg post pat toks f st,
+  at_end st done (imp :: arg :: post) -> t_text imp = IMPORT ->
+  import_ready env globs files st imp arg post pat toks -> (maxi <? p_imports st + 1)%N = false ->
+  directives env maxi globs files (S f) st =
+  directives env maxi globs files f
+    (st_imp st (done ++ map (set_imp (p_imports st + 1)) toks ++ post) (Z.of_nat (length done) - 1)).
+Proof. exact directives_import. Qed.
+Print Assumptions C10_import_splice_directives.
+
+(* The marks decide the line structure at the seams (repair of F-C10-4/5): a token spliced in by
+   import number n is on a NEW LINE relative to every neighbour that does not carry that number —
+   whatever the file and line numbers say (snippet tokens keep those of their definition) — for
+   NextLine / nextOnSameLine / NextBlock / isNewLine and for NextArg alike; among themselves the
+   tokens of one import keep exactly the line structure of their definition. *)
+Theorem C10_imported_tokens_line_structure : forall a b n,
+  (t_imp a <> n -> next_on_new_line a (set_imp n b) = true /\ same_line a (set_imp n b) = false) /\
+  (t_imp b <> n -> next_on_new_line (set_imp n a) b = true /\ same_line (set_imp n a) b = false) /\
+  (t_imp a = t_imp b -> next_on_new_line (set_imp n a) (set_imp n b) = next_on_new_line a b /\
+                        same_line (set_imp n a) (set_imp n b) = same_line a b).
+Proof. exact imported_tokens_line_structure. Qed.
+Print Assumptions C10_imported_tokens_line_structure.
+
+(* SNIPPET / INLINE EQUIVALENCE, full strength (was refuted by F-C10-4/5 before the repair).
+   [seg_exp env maxi snips post prev n nest src out n' k] relates the rest [src] of a directive AS
+   WRITTEN — `import <snippet>` statements at the start of lines inside its sub-blocks, at any
+   brace depth, the snippet bodies again containing such imports to any depth — to the token list
+   [out] in which every such statement is replaced, recursively, by the snippet's tokens: the same
+   directive written INLINE.  For every state, every environment, every snippet table and every
+   such directive, the parser reaches on the text as written exactly the state it reaches on the
+   inline tokens — same token list, same cursor, same keys, same directive groups with the same
+   tokens in the same order (hence the same texts and the same line structure) — the import counter
+   excepted; and it succeeds. *)
+Theorem C10_import_equiv_snippet : forall env maxi globs files snips post d src out n' k done fuel st,
+  seg_exp env maxi snips post d (p_imports st) 0%Z src out n' k ->
+  at_end st (done ++ [d]) (src ++ post) -> p_snips st = snips -> (k < fuel)%nat ->
+  post_ok (last out d) post ->
+  directive env maxi globs files fuel st =
+  with_imports n' (directive env maxi globs files fuel
+                     (st_with st ((done ++ [d]) ++ out ++ post) (p_cursor st) (p_btoks st))) /\
+  exists r, directive env maxi globs files fuel st = POk r.
+Proof. exact import_equiv_snippet. Qed.
+Print Assumptions C10_import_equiv_snippet.
+
+(* the inline list produced by the expansion satisfies the guard of the structure theorems: it is a
+   well-formed directive line, so C10_parse_structure_tokens applies to the inline configuration *)
+Theorem C10_snippet_expansion_wellformed : forall env maxi snips post prev n nest src out n' k,
+  seg_exp env maxi snips post prev n nest src out n' k -> line_ok prev out nest = true.
+Proof. exact seg_exp_line_ok. Qed.
+Print Assumptions C10_snippet_expansion_wellformed.
+
+(* non-vacuity, on the former witness of F-C10-5 (a snippet whose body starts with an import, used
+   inside a sub-block after a later line): the hypotheses hold for the tokens of the real text, the
+   expansion is the inline directive, and the whole split text parses like the inline text *)
+
+Example C10_import_equiv_snippet_nonvacuous :
+  seg_exp [] 100 SnippetExample.snips SnippetExample.post SnippetExample.d 0 0%Z SnippetExample.src SnippetExample.out 2 10 /\
+  post_ok (last SnippetExample.out SnippetExample.d) SnippetExample.post /\
+  (exists pre, lex SnippetExample.split = pre ++ [SnippetExample.d] ++ SnippetExample.src ++ SnippetExample.post) /\
+  texts_of (parse [] SnippetExample.split) = texts_of (parse [] SnippetExample.inline) /\
+  texts_of (parse [] SnippetExample.inline) <> None.
 Proof.
-  exists (bs "(t) {
+  split; [exact SnippetExample.expands|]. split; [vm_compute; auto|].
+  split; [exists (firstn 12 (lex SnippetExample.split)); vm_compute; reflexivity|]. split; [vm_compute; reflexivity|vm_compute; discriminate].
+Qed.
+
+(* the former witness of F-C10-4: `import s` as the first line of a nested block *)
+Example C10_import_snippet_in_nested_block :
+  texts_of (parse [] (bs "(s) {
 	inner1 x
-}
-(s) {
-	import t
 }
 a.com {
 	proxy / b {
-		opt y
-		import s
+		sub {
+			import s
+		}
+		after z
 	}
 }
-"%string), (bs "a.com {
+"%string)) = texts_of (parse [] (bs "a.com {
 	proxy / b {
-		opt y
-		inner1 x
+		sub {
+			inner1 x
+		}
+		after z
 	}
 }
-"%string).
-  vm_compute. split; discriminate.
-Qed.
-Print Assumptions C10_import_equiv_snippet_refuted.
+"%string)).
+Proof. vm_compute. reflexivity. Qed.
